@@ -10,9 +10,12 @@ Obs == JsonDeserialize(IOEnv.C10OBS)
 VARIABLE i
 Init == i = 1
 Rec == Obs[i]
-SpecOf(r) == IF r.sys = 0 THEN [base |-> r.base, decl |-> r.decl, reg |-> 0, coef |-> FALSE, short |-> ""] ELSE Systems[r.sys]
-TMatch(t, o) == \/ t.k = "raise" /\ o.k = "raise"
-                \/ t.k = "ok" /\ o.k = "ok" /\ ToSet(o.x) = t.x
+SpecOf(r) == IF r.sys = 0 THEN [base |-> r.base, bcoef |-> r.bcoef, decl |-> r.decl, reg |-> r.reg, coef |-> FALSE, short |-> ""] ELSE Systems[r.sys]
+\* the EM counterpart route hands back the bare counterpart atom (coefficient 1) whatever the base units are
+TMatch(S, x, t, o) == \/ t.k = "raise" /\ o.k = "raise"
+                      \/ /\ t.k = "ok" /\ o.k = "ok" /\ ToSet(o.x) = t.x
+                         /\ IF Route(S, x) = "em_counter" /\ t.x = EMCounter(x) THEN o.coefr = ROne /\ o.cpow = 1
+                            ELSE ScaleOk(S, t.x, XDim(t.x), o.coefr, o.cpow)
 \* user systems: a consistent specification must have been accepted (usable immediately), an inconsistent one rejected
 MadeClauses(r) == IF r.sys # 0 \/ r.o.k = "noinput" THEN {}
                   ELSE IF Consistent(r.base) THEN (IF r.o.k # "nosystem" /\ r.o.made.registered THEN {} ELSE {"UsableImmediately"})
@@ -25,8 +28,8 @@ Step ==
       bad == Clauses(S, x, o) \cup MadeClauses(r)
       t == Target(S, x)
       tf == TargetFixed(S, x)
-      asis == o.k \in {"noinput", "nosystem"} \/ TMatch(t, o)
-      fixed == o.k \in {"noinput", "nosystem"} \/ TMatch(tf, o) IN
+      asis == o.k \in {"noinput", "nosystem"} \/ TMatch(S, x, t, o)
+      fixed == o.k \in {"noinput", "nosystem"} \/ TMatch(S, x, tf, o) IN
   /\ \A cl \in bad : PrintT(ToJson([tag |-> "P-FAIL", i |-> i, clause |-> cl, route |-> Route(S, x), astranscribed |-> asis]))
   /\ (~asis /\ ~fixed) => PrintT(ToJson([tag |-> "T-FAIL", i |-> i, route |-> Route(S, x), model |-> t, fixedmodel |-> tf]))
   /\ (~asis /\ fixed) => PrintT(ToJson([tag |-> "T-FIXED", i |-> i, route |-> Route(S, x)]))
